@@ -30,10 +30,12 @@ enum Mid {
 struct Item {
     s: Scen,
     hist: Vec<Mid>,
+    /// axis values and the in-between queries are symbols as well (any valid axis, any unit)
+    symbolic_axes: bool,
 }
 impl Item {
     fn name(&self) -> String {
-        format!("history {:?} :: {}", self.hist, self.s.name())
+        format!("history {:?} :: {}{}", self.hist, self.s.name(), if self.symbolic_axes { " symbolic axes and in-between queries" } else { "" })
     }
 }
 
@@ -111,8 +113,8 @@ fn history<T: ndarray_interp::interp1d::cubic_spline::SplineNum + 'static>(it_: 
     Ok(Obs { first, mids, again })
 }
 
-fn sym_vals(s: &Scen) -> (Vals<Sym>, (Sym, Sym)) {
-    let mut v = crate::c09::sym_vals(s, false, false);
+fn sym_vals(s: &Scen, symbolic_axes: bool) -> (Vals<Sym>, (Sym, Sym)) {
+    let mut v = crate::c09::sym_vals(s, symbolic_axes, symbolic_axes);
     // q[0] is the symbolic query whose answer must not change; the others stay constants
     v.qx[0] = Sym::var("q1x");
     v.qy[0] = Sym::var("q1y");
@@ -126,11 +128,34 @@ fn check_item(it: &Item) -> Report {
     let s = &it.s;
     let mut chk = Chk::new(Mode::O, 20_000);
     chk.begin_config(&it.name());
-    let (v, far) = sym_vals(s);
-    let ecfg = ExploreCfg::new(Mode::O, s.nx().max(s.ny()).max(2) - 1);
+    let (v, far) = sym_vals(s, it.symbolic_axes);
+    let mut ecfg = ExploreCfg::new(Mode::O, s.nx().max(s.ny()).max(2) - 1);
+    if it.symbolic_axes {
+        ecfg.max_paths = 200_000;
+        ecfg.max_seconds = 600;
+    }
     let (paths, st) = explore(&ecfg, || {
-        Sym::assume_not_nan(v.qx[0]);
-        Sym::assume_not_nan(v.qy[0]);
+        if it.symbolic_axes {
+            for i in 0..s.nx() - 1 {
+                Sym::assume_lt(v.x[i], v.x[i + 1]);
+            }
+            for i in 0..s.ny().max(1) - 1 {
+                Sym::assume_lt(v.y[i], v.y[i + 1]);
+            }
+        }
+        for k in 0..v.qx.len() {
+            Sym::assume_not_nan(v.qx[k]);
+            Sym::assume_not_nan(v.qy[k]);
+            if it.symbolic_axes && k > 0 {
+                // the in-between queries are in range (the batch that repeats q1 contains them and fails as a whole otherwise)
+                Sym::assume_le(v.x[0], v.qx[k]);
+                Sym::assume_le(v.qx[k], v.x[s.nx() - 1]);
+                if s.kind.is_2d() {
+                    Sym::assume_le(v.y[0], v.qy[k]);
+                    Sym::assume_le(v.qy[k], v.y[s.ny() - 1]);
+                }
+            }
+        }
         history(it, &v, far)
     });
     chk.add_explore_stats(paths.len(), &st);
@@ -305,7 +330,16 @@ fn items(args: &Args) -> Vec<Item> {
             frontier = next;
         }
         for h in hists {
-            v.push(Item { s: s.clone(), hist: h });
+            v.push(Item { s: s.clone(), hist: h, symbolic_axes: false });
+        }
+    }
+    // any valid axis in any unit (a memo test such as `(x-lo)*(x-hi) <= 0` only goes wrong when the product underflows):
+    // small interpolators with symbolic axes and symbolic in-between queries, histories of one or two single queries
+    for mut s in [mk(Kind::Linear, vec![3], false), mk(Kind::Linear, vec![4], false), mk(Kind::Bilinear, vec![3, 2], false)] {
+        s.qshape = vec![2];
+        v.push(Item { s: s.clone(), hist: vec![Mid::Single(1)], symbolic_axes: true });
+        if thorough && !s.kind.is_2d() {
+            v.push(Item { s: s.clone(), hist: vec![Mid::Single(1), Mid::Batch], symbolic_axes: true });
         }
     }
     v
